@@ -28,7 +28,7 @@ type wstep struct {
 
 func (s wstep) String() string {
 	names := []string{"set", "delete", "close", "connerr", "status", "bookmark", "closeafter", "barrier", "sleep", "unknowntype", "errorframe",
-		"drop", "duplicate", "replay", "overflow", "terminating", "nonobject", "expiredstatus", "detailedstatus"}
+		"drop", "duplicate", "replay", "overflow", "terminating", "nonobject", "expiredstatus", "detailedstatus", "errornonstatus", "errorwithobject", "errornil"}
 	name := fmt.Sprint(s.Kind)
 	if s.Kind >= 0 && s.Kind < len(names) {
 		name = names[s.Kind]
@@ -93,6 +93,18 @@ func applyStep(srv *fakeapi.Server, s wstep, errs *int) {
 		srv.Inject(fakeapi.Frame{Type: watch.Error, Obj: &st2})
 		st3 := apierrors.NewInternalError(fmt.Errorf("boom")).Status()
 		srv.Inject(fakeapi.Frame{Type: watch.Error, Obj: &st3})
+	case 19:
+		// an ERROR frame whose payload is not a Status (an undecodable body under
+		// the error type): not a status to note, not an object either — the
+		// session cannot use it, like kind 16
+		srv.Inject(fakeapi.Frame{Type: watch.Error, Obj: &runtime.Unknown{}})
+	case 20:
+		// an ERROR frame that carries an API object: neither a status nor one of
+		// the three event types — skipped, like kind 9
+		srv.Inject(fakeapi.Frame{Type: watch.Error, Obj: (&Obj{ID: 9997, Kind: KPod, NS: 0, NM: 2, RV: fmt.Sprint(srv.Version() + 1), Spec: SPod}).Go().(runtime.Object)})
+	case 21:
+		// an ERROR frame without any payload
+		srv.Inject(fakeapi.Frame{Type: watch.Error, Obj: nil})
 	case 16:
 		// an ADDED frame whose payload is not an API object at all (an
 		// undecodable body): the session cannot use it; nothing may be lost
@@ -200,6 +212,10 @@ func runC04(c *Ctx) {
 		{{Kind: 5}},
 		{{Kind: 9}},
 		{{Kind: 16}},
+		{{Kind: 19}},
+		{{Kind: 20}},
+		{{Kind: 21}},
+		{{Kind: 4}, {Kind: 19}, {Kind: 20}},
 		{{Kind: 17}},
 		{{Kind: 18}},
 		{{Kind: 17}, {Kind: 2}},
